@@ -373,6 +373,10 @@ def to_vector(c):
     if hasattr(c, vector):
         # already labelled: keep the labels (and the object itself when it
         # is of unit length already), but still normalize
+        labels = list(np.atleast_1d(c[vector].values))
+        if labels != ['x', 'y', 'z'] and sorted(labels) == ['x', 'y', 'z']:
+            # the theories read the components by position
+            c = c.sel({vector: ['x', 'y', 'z']})
         norm = np.sqrt((c**2).sum(vector))
         if bool((norm == 1).all()):
             return c
